@@ -62,6 +62,7 @@ type vResult struct {
 	panicked bool
 	urls     []string
 	err      error
+	side     string // a side effect on what the caller handed in (trusted pool modified …): a failure whatever the verdict
 }
 
 // runVerify calls the real verify.TdxQuote on the world's message (cloned) with fresh options.
@@ -70,7 +71,7 @@ func runVerify(w *world.World) vResult {
 	o := &verify.Options{GetCollateral: w.Spec.GC, CheckRevocations: w.Spec.CR, Getter: w.Getter, TrustedRoots: w.Pool()}
 	if w.Spec.Now != nil {
 		n := w.Spec.Now
-		o.Now = &verify.TimeSet{PckCertChain: n[0], TcbInfo: n[1], QeIdentity: n[2], PckCrl: n[3], RootCaCrl: n[4]}
+		o.Now = vTimeSet(n)
 	}
 	nowBefore := o.Now
 	var err error
@@ -91,7 +92,22 @@ func runVerify(w *world.World) vResult {
 	}
 	joined := world.JoinURLs(w.Getter.URLs)
 	obs := fmt.Sprintf("%s urls=%d:%d now=%s", res, len(w.Getter.URLs), hx.Fnv1a([]byte(joined)), nowS)
-	return vResult{obs, res == "ok", res == "panic", append([]string{}, w.Getter.URLs...), err}
+	return vResult{obs, res == "ok", res == "panic", append([]string{}, w.Getter.URLs...), err, vSide(w, o)}
+}
+
+// vTimeSet: the verification times as time.Time values.  The instants are what counts, not how they are written: a third of
+// the time sets are expressed in a zone west of UTC, a third east of it.
+func vTimeSet(n *[5]time.Time) *verify.TimeSet {
+	loc := []*time.Location{time.UTC, time.FixedZone("UTC-8", -8*3600), time.FixedZone("UTC+5:30", 5*3600+1800)}[(n[0].Unix()/7+int64(n[0].Nanosecond()))%3]
+	return &verify.TimeSet{PckCertChain: n[0].In(loc), TcbInfo: n[1].In(loc), QeIdentity: n[2].In(loc), PckCrl: n[3].In(loc), RootCaCrl: n[4].In(loc)}
+}
+
+// vSide: what a call must leave alone.  The trusted-root pool is the caller's: after the call it holds exactly what it held.
+func vSide(w *world.World, o *verify.Options) string {
+	if o.TrustedRoots != nil && !o.TrustedRoots.Equal(w.Pool()) {
+		return "the caller's TrustedRoots pool was modified by the call (it no longer holds exactly the certificates the caller listed)"
+	}
+	return ""
 }
 
 // emitWorld runs one world at the spec's option setting and records it.
@@ -104,6 +120,9 @@ func emitWorld(r *hx.Run, w *world.World, oracle func(vr vResult) string, tags .
 		fail = "crash in verify.TdxQuote"
 	} else if oracle != nil {
 		fail = oracle(vr)
+	}
+	if fail == "" {
+		fail = vr.side
 	}
 	cls := "-"
 	if vr.err != nil {
